@@ -148,17 +148,25 @@ func runC06(c *Ctx) {
 	// R-C06-4 is decided by R-C07-1 (rs-destination@unspecified=true); re-check the essential here.
 	if h := c.needMethod("R-C06-4", "internal/corerad", "Advertiser", "handle"); h != nil {
 		ok := false
+		nUnspec, nOther := 0, 0
 		for _, p := range c.pathsO("R-C06-4", h, an.PathOpts{}) {
 			if p.Ret == nil {
 				continue
 			}
 			for _, a := range p.Atoms {
-				if a.Pos && a.Cond.Op == an.OpCall && a.Cond.Fn != nil && a.Cond.Fn.String() == "(net/netip.Addr).IsUnspecified" && isAllNodesCall(p.Results[0]) {
-					ok = true
+				if a.Pos && a.Cond.Op == an.OpCall && a.Cond.Fn != nil && a.Cond.Fn.String() == "(net/netip.Addr).IsUnspecified" {
+					// every solicitation from :: becomes a multicast trigger: none is dropped or coalesced away
+					nUnspec++
+					if isAllNodesCall(p.Results[0]) && (len(p.Results) < 2 || exprIsNil(p.Results[1])) {
+						ok = true
+					} else {
+						nOther++
+					}
 				}
 			}
 		}
-		c.R.Check(ok, "R-C06-4", c.fname(h)+":unspecified-to-all-nodes", c.fname(h), c.pos(h.Pos()), fmt.Sprintf("RS from :: → all-nodes=%v", ok), "a solicitation from :: is a multicast trigger", "solicitations from :: bypass the rate limiter or are dropped")
+		ok = ok && nOther == 0
+		c.R.Check(ok, "R-C06-4", c.fname(h)+":unspecified-to-all-nodes", c.fname(h), c.pos(h.Pos()), fmt.Sprintf("RS from :: → all-nodes=%v (%d of %d such path(s) answer otherwise)", ok, nOther, nUnspec), "every solicitation from :: is a multicast trigger", "solicitations from :: bypass the rate limiter or are dropped")
 	}
 
 	// R-C06-5 who may call send / sendWorker
